@@ -56,7 +56,7 @@ where
     kani::assume(st.c >= 2);
     let h2 = h.dup();
     h.release();
-    assert!(h2.count_all() == st.c, "release did not lower the reported count by exactly one");
+    assert!(h2.count_light() == st.c, "release did not lower the reported count by exactly one");
     h2.release();
     st.alive(st.c - 1);
     kani::cover!(st.c == 2);
